@@ -1482,7 +1482,17 @@ func ruleC12Diags(c *Checker) {
 			if st, ok := in.(*ssa.Store); ok {
 				if fa, ok := st.Addr.(*ssa.FieldAddr); ok {
 					if f := fieldOf(fa); f != nil && isNamedT(derefType(fa.X.Type()), "SourceRange") && f.Name() != "Filename" {
-						onlyFN = false
+						// a field-by-field copy (a literal instead of the shallow copy) stores the same field of
+						// another range, unchanged
+						copied := false
+						if ld, ok := st.Val.(*ssa.UnOp); ok && ld.Op == token.MUL {
+							if fa2, ok := ld.X.(*ssa.FieldAddr); ok && fieldOf(fa2) == f && fa2.X != fa.X {
+								copied = true
+							}
+						}
+						if !copied {
+							onlyFN = false
+						}
 					}
 				}
 			}
